@@ -12,26 +12,43 @@ long __builtin_lrintf(float x) { return lrintf(x); }
 long __builtin_lrint(double x) { return lrint(x); }
 long long __builtin_llrintf(float x) { return llrintf(x); }
 long long __builtin_llrint(double x) { return llrint(x); }
+#endif
 /* fma: CBMC 6.11's floatbv_fma is NOT usable as a specification (it loses the last bit when the product is zero:
  * __CPROVER_fmaf(-0x1p32f, 0.0f, 0x1.000042p-125f) == 0x1.00004p-125f).  float fma is specified exactly instead: the product of
  * two floats is exact in double; the sum is formed in double with round-to-odd (round down and round up differ iff inexact; take
  * the one with the odd last bit), and rounding that 53-bit odd-rounded value to 24 bits (or fewer, denormal) is the single
- * correct rounding because 53 >= 2*24 + 2.  No double overflow/underflow is possible for float operands. */
+ * correct rounding because 53 >= 2*24 + 2.  No double overflow/underflow is possible for float operands.  When the product is
+ * already exact in float the float sum x*y + z is by definition the correctly rounded result (same value, one rounding). */
+/* Evaluated once per argument triple (memo): every further multiplier over the same operands is one more multiplier-equivalence
+ * problem for the SAT solver.  vf_fma_inexact_f: the float product x*y is not exact (rounded, overflowed or underflowed). */
+static _Bool vf_fma_inexact_f, vf_fma_memo_v; static float vf_fma_mx, vf_fma_my, vf_fma_mz, vf_fma_mr;
+static unsigned vf_fbits(float f) { union { unsigned u; float f; } c; c.f = f; return c.u; }
 static float vf_fmaf_exact(float x, float y, float z)
 {
+  if (vf_fma_memo_v && vf_fbits(x) == vf_fbits(vf_fma_mx) && vf_fbits(y) == vf_fbits(vf_fma_my) && vf_fbits(z) == vf_fbits(vf_fma_mz)) return vf_fma_mr;
   double p = (double)x * (double)y, zz = (double)z;
-  int rm = __CPROVER_rounding_mode;
-  __CPROVER_rounding_mode = 1; double dn = p + zz;   /* toward -inf */
-  __CPROVER_rounding_mode = 2; double up = p + zz;   /* toward +inf */
-  __CPROVER_rounding_mode = rm;
-  union { unsigned long long u; double d; } c; c.d = dn;
-  double odd = (dn == up || (c.u & 1ull)) ? dn : up;
-  if (dn == up && dn == 0) odd = p + zz;              /* exact zero sum: the sign follows the current rounding mode */
-  return (float)odd;
-}
-float __builtin_fmaf(float x, float y, float z) { return vf_fmaf_exact(x, y, z); }
-#define VF_FMA_f(x, y, z) vf_fmaf_exact(x, y, z)
+  float pf = x * y, r;
+  vf_fma_inexact_f = !((double)pf == p);
+  if (!vf_fma_inexact_f) r = pf + z;                   /* the product is exact in float: x*y+z rounds once anyway */
+  else {
+#ifndef VF_NATIVE
+    int rm = __CPROVER_rounding_mode;
+    __CPROVER_rounding_mode = 1; double dn = p + zz;   /* toward -inf */
+    __CPROVER_rounding_mode = 2; double up = p + zz;   /* toward +inf */
+    __CPROVER_rounding_mode = rm;
+    union { unsigned long long u; double d; } c; c.d = dn;
+    double odd = (dn == up || (c.u & 1ull)) ? dn : up;
+    if (dn == up && dn == 0) odd = p + zz;              /* exact zero sum: the sign follows the current rounding mode */
+    r = (float)odd;
 #else
-#define VF_FMA_f(x, y, z) fmaf(x, y, z)
+    r = fmaf(x, y, z);
 #endif
+  }
+  vf_fma_memo_v = 1; vf_fma_mx = x; vf_fma_my = y; vf_fma_mz = z; vf_fma_mr = r;
+  return r;
+}
+#ifndef VF_NATIVE
+float __builtin_fmaf(float x, float y, float z) { return vf_fmaf_exact(x, y, z); }
+#endif
+#define VF_FMA_f(x, y, z) vf_fmaf_exact(x, y, z)
 #endif
